@@ -20,7 +20,7 @@ def thresholds():
 
 @st.composite
 def pipeline_case(draw, rx_strategy, min_rx=1, max_rx=6, n_jobs_choices=(1,), threshold=None,
-                  batch=True):
+                  batch=True, carry=False):
     items = draw(st.lists(rx_strategy, min_size=min_rx, max_size=max_rx))
     if draw(st.integers(0, 3)) == 0:
         # the same reaction twice in one batch (identical text), at a drawn position
@@ -44,6 +44,10 @@ def pipeline_case(draw, rx_strategy, min_rx=1, max_rx=6, n_jobs_choices=(1,), th
         # result caching is configuration as well: the judged run uses a cache directory that an earlier run of the
         # same inputs under another threshold has already filled
         case["cache_prelude"] = draw(st.sampled_from([0, 0.5, 0.9, 1.0]))
+    if carry and draw(st.integers(0, 5)) == 0:
+        # rows that come from an earlier result (dict rows that already carry an `input_reaction` entry, here the one of
+        # the neighbouring row) whose reaction column was edited since: the run must report ITS input
+        case["carry"] = draw(st.sampled_from(["neighbour", "constant"]))
     return case
 
 
@@ -57,6 +61,11 @@ def execute(case):
     cache_dir = None
     try:
         data = case["reactions"] if col == "reaction" else [{col: r} for r in case["reactions"]]
+        if case.get("carry"):
+            rx = case["reactions"]
+            stale = [rx[(i + 1) % len(rx)] if case["carry"] == "neighbour" and len(rx) > 1 else "CCO>>CC=O"
+                     for i in range(len(rx))]
+            data = [{col: r, "input_reaction": s_, "note": "row %d" % i} for i, (r, s_) in enumerate(zip(rx, stale))]
         if case.get("cache_prelude") is not None:
             import tempfile
             cache_dir = tempfile.mkdtemp(prefix="synverif-pre-", dir="/var/tmp")
@@ -294,8 +303,10 @@ class PipelineModule:
     """Common shard kinds for properties judged on rebalance() output rows.
     judge(case, rows, stats, res) adds failures/classes/non-trivial keys."""
 
-    def __init__(self, judge, rx_strategy=None, thresholds_strategy=None, extra_enum=None, min_rx=1, max_rx=6):
+    def __init__(self, judge, rx_strategy=None, thresholds_strategy=None, extra_enum=None, min_rx=1, max_rx=6,
+                 carry=False):
         self.judge = judge
+        self.carry = carry
         self.rx_strategy = rx_strategy
         self.thresholds = thresholds_strategy
         self.extra_enum = extra_enum or {}
@@ -311,7 +322,7 @@ class PipelineModule:
     def strategy(self, spec):
         return pipeline_case(self._rx(spec), spec.get("min_rx", self.min_rx), spec.get("max_rx", self.max_rx),
                              n_jobs_choices=tuple(spec.get("n_jobs", (1,))), threshold=self.thresholds,
-                             batch=spec.get("batch", True))
+                             batch=spec.get("batch", True), carry=self.carry)
 
     def check_case(self, case, spec=None):
         res = CaseResult()
